@@ -99,6 +99,17 @@ def judge_stack(rec, k, md, report, counts, fresh_md=None):
         counts["discarded:payload-has-decoded-node"] = counts.get("discarded:payload-has-decoded-node", 0) + 1
         return False
     global last_root
+    if rec.get("decoy"):
+        # history aimed at state keyed on object identity: a neutral buffer of the same length is scanned and released,
+        # then the input is re-created (CPython hands out the address that was just freed) and scanned right away
+        import gc
+        hexd = data.hex()
+        decoy = (b"qz " * (len(data) // 3 + 1))[: len(data)]
+        md.scan(decoy)
+        decoy = None
+        gc.collect()
+        data = bytes.fromhex(hexd)
+        counts["stacks_after_decoy_history"] = counts.get("stacks_after_decoy_history", 0) + 1
     root = md.scan(data) if k is None else md.scan(data, k)
     last_root = root
     from multidecoder.multidecoder import DEFAULT_DEPTH_LIMIT
